@@ -3,7 +3,6 @@ package rig
 import (
 	"fmt"
 
-	"github.com/pion/ice/v4"
 	"github.com/pion/stun/v3"
 
 	"verif/sim/simnet"
@@ -73,7 +72,7 @@ func Decode(p []byte) Msg {
 		return nil, false
 	}
 	_, out.UseCandidate = get(stun.AttrUseCandidate)
-	if v, ok := get(stun.AttrType(ice.DefaultNominationAttribute)); ok && len(v) == 4 {
+	if v, ok := get(NominationAttr); ok && len(v) == 4 {
 		n := uint32(v[1])<<16 | uint32(v[2])<<8 | uint32(v[3])
 		out.Nomination = &n
 	}
